@@ -35,8 +35,9 @@ LEVEL_TEXT = ('Theorems for every grid/level/request rectangle (mosaic georefere
               'feature-info position (any external transformation T), every WMS version / axis order combination, over the '
               'Gallina model Geo.v; the model is tied to the code by running the real functions and the real WSGI '
               'application on generated configurations and comparing with the model evaluated by vm_compute.')
-LEVEL_NOTE = ('Known findings reproduced by the oracle on the unchanged tree (known_findings.d/C01.json): RESTful WMTS GetFeatureInfo uses '
-              'the mirrored tile on south-origin grids; sub-pixel truncations of several stages add up to 1.5-3.5 px.  '
+LEVEL_NOTE = ('Known finding reproduced by the oracle on the unchanged tree (known_findings.d/C01.json): sub-pixel truncations of '
+              'several stages add up to 1.5-3.5 px.  Repaired: RESTful WMTS GetFeatureInfo used the mirrored tile on '
+              'south-origin grids (corpus/C01/wmts-rest-featureinfo-ll.json stays as regression input).  '
               'Trusted: Coq kernel; hand-written model Geo.v/Grid.v; the correspondence harness and the synthetic upstream. '
               'IEEE-754 rounding is not modelled (exact stream: dyadic inputs, results compared exactly or within 2^-40 '
               'relative where a division is inexact). PROJ, PIL resampling kernels and the MESH path are not modelled: they '
